@@ -14,10 +14,10 @@ EXPLANATION = (
     "FF->Err, TT->Err, TF->Ok(success), FT->Ok(failure). C18.3: with an expected function, Ok is reachable only when the parsed function "
     "equals it (valuation over expected.is_some, equal). C18.4: each parser's subject goes through try_into_expected_tagged_value with the "
     "writer's tag. C18.5: early failure: the writer's 'Unknown' known value is the very constant the reader compares with; any other known "
-    "value is an Err. Function/Parameter: Known <-> unsigned, Named <-> text under the same tag. C18.6: names that may be stored as a static or an owned string (the parser always produces the owned form) compare and hash by their text, never by storage variant. Does not decide value-level round-trip of "
+    "value is an Err. Function/Parameter: Known <-> unsigned, Named <-> text under the same tag. C18.6: names that may be stored as a static or an owned string (the parser always produces the owned form) compare and hash by their text, never by storage variant. C18.7: a field written conditionally (add_assertion_if) is written iff !is_empty(that very field), the complement of the reader's empty default. Does not decide value-level round-trip of "
     "Date, ARID or arbitrary parameter values (dcbor / bc-components).")
 TRUSTED = ['CBOR::try_into_expected_tagged_value fails unless the tag matches', 'ARID/Date/String CBOR conversions round-trip (dependencies)']
-FLOORS = {'C18.1': 10, 'C18.2': 1, 'C18.3': 1, 'C18.4': 3, 'C18.5': 1, 'C18.6': 2}
+FLOORS = {'C18.1': 10, 'C18.2': 1, 'C18.3': 1, 'C18.4': 3, 'C18.5': 1, 'C18.6': 2, 'C18.7': 2}
 P1 = ('param', 1)
 ADDERS = {'add_assertion': (1, 2, 'always'), 'add_optional_assertion': (1, 2, 'optional'), 'add_assertion_if': (2, 3, 'conditional'),
           'add_assertion_envelope': (None, 1, 'always')}
@@ -149,6 +149,30 @@ def check_pair(ctx, tyname, self_suffix):
                 else:
                     ctx.fail('C18.1', ctx.site(w, bi, si), '%s writer has an exit that does not write %s although no test of that field leads there: the field is lost on that path' % (tyname, '.'.join(path)),
                              key='C18.1|%s|dropped|%s' % (tyname, '.'.join(path)))
+    # C18.7 conditional writes: a field that is written only under a condition must be left out exactly when it has the value the
+    # reader fills in for an absent assertion (the empty default): the condition is !is_empty(field) of the very field written,
+    # with nothing (trim, len comparison with another bound, another field) in between
+    def bare_field(x):
+        x = strip_sites(x)
+        while x[0] == 'call' and call_name(x) in ('deref', 'as_str', 'as_ref', 'borrow', 'as_slice', 'as_bytes') and len(x[2]) == 1:
+            x = strip_sites(x[2][0])
+        while x[0] in ('ref', 'deref') and len(x) > 1 and isinstance(x[1], tuple):
+            x = strip_sites(x[1])
+        p_, r_ = field_path(x)
+        return p_ if r_ == P1 else None
+    for x in walk(strip_sites(wt)):
+        if not (isinstance(x, tuple) and x and x[0] == 'call' and call_name(x) == 'add_assertion_if'):
+            continue
+        cond, val = strip_sites(x[2][1]), x[2][3]
+        vp = first_field_path(val, P1)
+        neg = cond[0] == 'unop' and cond[1] == 'Not'
+        inner = strip_sites(cond[2]) if neg else cond
+        ie = inner[2][0] if inner[0] == 'call' and call_name(inner) == 'is_empty' and len(inner[2]) == 1 else None
+        if neg and ie is not None and vp is not None and bare_field(ie) == vp:
+            ctx.ok('C18.7', ctx.site(w), '%s.%s is written iff it is not empty (the reader\'s default for the absent assertion)' % (tyname, '.'.join(vp)), sample=fmt(cond))
+        else:
+            ctx.fail('C18.7', ctx.site(w), '%s.%s is written under the condition %s, which is not "the field itself is not empty": some non-default values are dropped or '
+                     'the default is written' % (tyname, '.'.join(vp) if vp else '?', fmt(cond)), key='C18.7|%s|%s' % (tyname, '.'.join(vp) if vp else '?'))
     # reader: the impl that builds the struct
     reader = None
     rr = {}
